@@ -46,6 +46,9 @@ def instances(tier, seed):
     # racemic big cell: proper copies near and far from the origin, the other hand far from the origin stays untouched
     add("aba:S29:chiralflat4->F:chiralflat4F->H:far-from-origin-mirror-site", struct='S29', repl='chiralflat4->F', repl2='chiralflat4F->H', axes=[0],
         other=(0, 0.02, 0.03), ranges={'0': (0.0, 0.12)}, mode='aba', cost=60)
+    # B shares two elements with A at positions 0.07 A away (more than "same coordinates", less than a loose tolerance)
+    add("aba:S3:planar3->planar3B:planar3B->planar3:ligands-moved-by-0.07A", struct='S3', repl='planar3->planar3B', repl2='planar3B->planar3', axes=[1],
+        other=(0.25, 0, 0.7), mode='aba', cost=60)
     for sname, r1, r2, ax in aba:
         for a in ([ax] if tier == 'quick' or sname in ('S5',) else [0, 1, 2]):
             add(f"aba:{sname}:{r1}:{r2}:axis{a}", struct=sname, repl=r1, repl2=r2, axes=[a], other=(0.8, 0.15, 0.5), mode='aba', cost=60)
